@@ -13,6 +13,7 @@ import (
 
 	tls "github.com/refraction-networking/utls"
 	"github.com/refraction-networking/utls/zz_verif/fixtures"
+	"github.com/refraction-networking/utls/zz_verif/refsrv"
 	"github.com/refraction-networking/utls/zz_verif/simnet"
 	"github.com/refraction-networking/utls/zz_verif/simrt"
 )
@@ -22,6 +23,7 @@ import (
 type certFix struct {
 	U   tls.Certificate
 	S   stdtls.Certificate
+	R   refsrv.Certificate
 	X   *x509.Certificate
 	DER [][]byte
 }
@@ -52,7 +54,11 @@ func loadFix() {
 			}
 			x, _ := x509.ParseCertificate(u.Certificate[0])
 			u.Leaf = x
-			fixCerts[n] = &certFix{U: u, S: s, X: x, DER: u.Certificate}
+			r, err := refsrv.X509KeyPair(cp, kp)
+			if err != nil {
+				panic(err)
+			}
+			fixCerts[n] = &certFix{U: u, S: s, R: r, X: x, DER: u.Certificate}
 		}
 	})
 }
@@ -68,11 +74,15 @@ var BubbleEpoch = time.Date(2000, 1, 1, 0, 0, 0, 0, time.UTC)
 const (
 	PeerUTLS = iota // the repository's own server (tls.Server)
 	PeerStd         // Go standard library crypto/tls server: independent compliant peer
+	PeerRef         // reference / byzantine server: frozen fork of the TLS stack with deviation hooks (sim/refsrv)
 )
 
 func peerName(p int) string {
-	if p == PeerStd {
+	switch p {
+	case PeerStd:
 		return "std"
+	case PeerRef:
+		return "ref"
 	}
 	return "utls"
 }
@@ -111,10 +121,13 @@ type ConnSpec struct {
 	Peer     int
 	SCfg     *tls.Config
 	StdCfg   *stdtls.Config
+	RefCfg   *refsrv.Config
 	ServerFn func(o *ConnOutcome, conn net.Conn)
 
 	Setup    func(l *simnet.Link)
 	Deadline time.Duration
+	// AfterServerHS runs in the server task right after a reference server's handshake.
+	AfterServerHS func(o *ConnOutcome)
 	// OnClientWrite runs on the scheduler goroutine before each client transport write is applied.
 	OnClientWrite func(l *simnet.Link, b []byte)
 	// ServerStall: the server stops reading for this long right after its handshake (slow node).
@@ -142,6 +155,7 @@ type ConnOutcome struct {
 	RawAtHS  []byte // HandshakeState.Hello.Raw as the first client write was performed
 	CPanic   any
 	SPanic   any
+	RefConn  *refsrv.Conn
 }
 
 func isRemote(err error) bool {
@@ -192,6 +206,21 @@ func defaultServer(o *ConnOutcome, conn net.Conn) {
 			Curve: uint16(st.CurveID), HasCurve: st.CurveID != 0, DidResume: st.DidResume, ECHAccepted: st.ECHAccepted, ServerName: st.ServerName,
 			EKM: st.ExportKeyingMaterial}
 		rw = sc
+	} else if sp.Peer == PeerRef {
+		sc := refsrv.Server(conn, sp.RefCfg)
+		o.RefConn = sc
+		o.SErr = sc.Handshake()
+		if o.SErr != nil {
+			conn.Close()
+			return
+		}
+		st := sc.ConnectionState()
+		o.S = ServerView{Done: st.HandshakeComplete, Version: st.Version, Suite: st.CipherSuite, ALPN: st.NegotiatedProtocol,
+			DidResume: st.DidResume, ECHAccepted: st.ECHAccepted, ServerName: st.ServerName, EKM: st.ExportKeyingMaterial}
+		rw = sc
+		if sp.AfterServerHS != nil {
+			sp.AfterServerHS(o)
+		}
 	} else {
 		sc := tls.Server(conn, sp.SCfg)
 		o.SErr = sc.Handshake()
